@@ -39,6 +39,7 @@ def gen(seed: int, tier: str) -> dict[str, Any]:
     ctx = rng.choice([0.3, 1.0, 2.0])
     ref = ctx if kind == "bs_counter" else reset
     n = rng.choice([1, 2, 4, 8, 15])
+    mix = rng.random() < 0.35      # contexts in which both states are set several times
     tgs = []
     t = 0.1
     for i in range(n):
@@ -47,7 +48,9 @@ def gen(seed: int, tier: str) -> dict[str, Any]:
                "far": ref * 2.5 + 0.2}[g]
         if i:
             t += gap
-        if kind == "bs_counter":
+        if kind == "bs_counter" and mix:
+            v = (1 - tgs[-1]["v"]) if tgs and rng.random() < 0.4 else (tgs[-1]["v"] if tgs else rng.choice([0, 1]))
+        elif kind == "bs_counter":
             v = rng.choice([1, 1, 1, 0]) if rng.random() < 0.3 else (tgs[-1]["v"] if tgs else 1)
         else:
             v = rng.choice([1, 1, 1, 0])
@@ -58,10 +61,15 @@ def gen(seed: int, tier: str) -> dict[str, Any]:
             # on again in xknx - outside the statement, recorded as observation in DESIGN.md, not generated here.)
             tg["apci"] = "response"
         tgs.append(tg)
+    readd = []
+    if kind == "bs_counter" and len(tgs) >= 3 and rng.random() < 0.3:
+        # the device is removed from the registry and added again (its tasks are cancelled) while a context is open
+        k = rng.randrange(len(tgs) - 1)
+        readd.append(round(tgs[k]["t"] + ctx * rng.choice([0.3, 0.7]), 6))
     return {"seed": seed, "tier": "S",
             "config": {"kind": kind, "reset": reset, "ctx": ctx, "epoch_base": rng.choice([0.0, 1.7e9]), "batch": 1,
                        "invert": False},
-            "ops": tgs}
+            "ops": tgs, "readd": readd}
 
 
 def run(plan: dict[str, Any]) -> dict[str, Any]:
@@ -111,6 +119,13 @@ def run(plan: dict[str, Any]) -> dict[str, Any]:
 
         for tg in plan["ops"]:
             loop.at(t0 + tg["t"], (lambda v=tg["v"], a=tg.get("apci", "write"): send(v, a)), label="tg")
+        def readd():
+            xknx.devices.async_remove(dev)
+            xknx.devices.async_add(dev)
+            R.extra_faults["device_removed_and_added_again"] += 1
+
+        for tr in plan.get("readd") or []:
+            loop.at(t0 + tr, readd, label="readd")
         tl = plan["ops"][-1]["t"]
         # sample the state around the expected reset instants
         ons = [tg["t"] for tg in plan["ops"] if tg["v"] == 1]
@@ -186,21 +201,27 @@ def run(plan: dict[str, Any]) -> dict[str, Any]:
             if len(b) >= 2:
                 nontrivial = True
             pure = len({x["v"] for x in b}) == 1
+            cut = any(b[0]["t"] - 1e-5 <= tr <= b[-1]["t"] + c + 1e-5 for tr in plan.get("readd") or [])
             tie_next = bi + 1 < len(bursts) and abs(bursts[bi + 1][0]["t"] - b[-1]["t"] - c) <= 1e-5
             tie_prev = bi > 0 and abs(b[0]["t"] - bursts[bi - 1][-1]["t"] - c) <= 1e-5
             tie_in = any(abs(y["t"] - x["t"] - c) <= 1e-5 for x, y in zip(b, b[1:]))
-            if not pure or tie_next or tie_prev or tie_in:
+            zero_gap_mixed = (not pure) and any(y["t"] == x["t"] for x, y in zip(b, b[1:]))
+            if cut or tie_next or tie_prev or tie_in or zero_gap_mixed:
                 R.probes["burst_unjudged"] += 1
                 continue
             t_report = b[-1]["t"] + c
-            want_state = bool(b[0]["v"])
+            # a context counts per state; what is reported when it ends is the last state and how often *that* state was set
+            want_state = bool(b[-1]["v"])
+            want_count = sum(1 for x in b if x["v"] == b[-1]["v"])
+            if not pure:
+                R.probes["mixed_burst_judged"] += 1
             reports = [(st, cnt) for (tc, st, cnt) in cb_log if abs((tc - t0) - t_report) < eps]
             if not reports:
                 R.violate("C42.counter", "burst-not-reported", f"burst of {len(b)} x {want_state} ending {b[-1]['t']}: no callback at {t_report}")
                 continue
             st, cnt = reports[0]
-            if st != want_state or cnt != len(b):
-                R.violate("C42.counter", f"count={cnt}-for-burst-of-{min(len(b), 9)}",
+            if st != want_state or cnt != want_count:
+                R.violate("C42.counter", f"count={cnt}-for-burst-of-{min(want_count, 9)}",
                           f"burst of {len(b)} x {want_state} ending {b[-1]['t']}: first callback at {t_report} reports state {st}, counter {cnt}")
             else:
                 R.probes["burst_counted"] += 1
